@@ -713,6 +713,8 @@ class Interp(object):
     def external(self, full):
         if full in ('datetime.datetime', 'datetime.date', 'datetime.timedelta', 'datetime.time'):
             return TypeV(full)
+        if full in ('math.pi', 'math.e', 'math.inf', 'math.nan', 'math.tau'):
+            return Atom(full, [], 'float')
         return Builtin(full)
 
     def const_expr(self, m, node):
